@@ -307,22 +307,60 @@ func runC14(c *Ctx) {
 			c.Check(ok, "C14.stream-end", fnName(sres), "whole-target delete delivered on a single-target stream ends it cleanly", P.Pos(sres.Pos()), "path: "+p.String())
 		}
 		c.Floor("C14.stream-end/paths", n, 1)
-		// isTargetDelete table
+		// isTargetDelete table.  The function is pure over (number of deletes, prefix origin, index of the prefix,
+		// index of the deleted path); the two indexes are replayed separately (lengths PL, DL), their
+		// concatenation - by append or slices.Concat - has length PL+DL, and slices.Equal(x, []string{"*"}) is
+		// by contract len(x) == 1 && x[0] == "*".
 		fDelete := P.Field("proto/gnmi", "Notification", "Delete")
+		fPrefix := P.Field("proto/gnmi", "Notification", "Prefix")
+		var lenClass func(e *PPA, st *State, a RV, d int) string
+		lenClass = func(e *PPA, st *State, a RV, d int) string {
+			if d > 6 {
+				return ""
+			}
+			a = e.Resolve(st, a)
+			if loadOfField(a.V, fDelete) || isCallNamed(a.V, "(*proto/gnmi.Notification).GetDelete") {
+				return "LDEL"
+			}
+			if _, ok := isAppend(a.V); ok {
+				return "PLEN"
+			}
+			if call, ok := a.V.(*ssa.Call); ok {
+				if g := staticCallee(&call.Call); g != nil && pkgPathOf(g) == "slices" && strings.HasPrefix(g.Name(), "Concat") {
+					return "PLEN"
+				}
+				if isCallNamed(a.V, "path.ToStrings") && len(call.Call.Args) > 0 {
+					arg := e.Resolve(st, RV{a.F, call.Call.Args[0]})
+					if loadOfField(arg.V, fPrefix) || isCallNamed(arg.V, "(*proto/gnmi.Notification).GetPrefix") {
+						return "PL"
+					}
+					return "DL"
+				}
+			}
+			return ""
+		}
 		cls := func(e *PPA, st *State, rv RV) string {
 			rv = e.Resolve(st, rv)
 			switch v := rv.V.(type) {
 			case *ssa.Call:
 				if b, ok := v.Call.Value.(*ssa.Builtin); ok && b.Name() == "len" {
-					a := e.Resolve(st, RV{rv.F, v.Call.Args[0]})
-					if loadOfField(a.V, fDelete) || isCallNamed(a.V, "(*proto/gnmi.Notification).GetDelete") {
-						return "LDEL"
-					}
-					if _, ok := isAppend(a.V); ok {
-						return "PLEN"
-					}
-					if isCallNamed(a.V, "path.ToStrings") {
-						return "PLEN"
+					return lenClass(e, st, RV{rv.F, v.Call.Args[0]}, 0)
+				}
+				// slices.Equal(x, []string{"*"})
+				if g := staticCallee(&v.Call); g != nil && pkgPathOf(g) == "slices" && strings.HasPrefix(g.Name(), "Equal") && len(v.Call.Args) == 2 {
+					for _, k := range []int{0, 1} {
+						if els, ok := e.sliceLitElems(st, e.Resolve(st, RV{rv.F, v.Call.Args[k]})); ok && len(els) == 1 {
+							if sc, ok := constString(e.Resolve(st, els[0]).V); ok && sc == "*" {
+								switch lenClass(e, st, RV{rv.F, v.Call.Args[1-k]}, 0) {
+								case "PLEN":
+									return "ONLYSTAR"
+								case "PL":
+									return "ONLYSTAR-PL"
+								case "DL":
+									return "ONLYSTAR-DL"
+								}
+							}
+						}
 					}
 				}
 			case *ssa.BinOp:
@@ -342,6 +380,12 @@ func runC14(c *Ctx) {
 								return name
 							}
 						}
+						if isNilConst(pr[1]) && loadOfField(e.Resolve(st, RV{rv.F, pr[0]}).V, fPrefix) {
+							if v.Op == token.NEQ {
+								return "!PNIL"
+							}
+							return "PNIL"
+						}
 					}
 				}
 			case *ssa.Extract:
@@ -354,15 +398,21 @@ func runC14(c *Ctx) {
 		rows := 0
 		for _, ldel := range []int64{0, 1, 2} {
 			for _, oe := range []bool{true, false} {
-				for _, plen := range []int64{1, 2} {
+				for _, pd := range [][2]int64{{1, 0}, {0, 1}, {1, 1}, {2, 0}, {0, 2}, {0, 0}} {
 					for _, star := range []bool{true, false} {
-						at := &Atoms{Class: cls, Bool: map[string]bool{"ISNOTI": true, "OEMPTY": oe, "STAR": star}, Int: map[string]int64{"LDEL": ldel, "PLEN": plen}}
+						pl, dl := pd[0], pd[1]
+						bools := map[string]bool{"ISNOTI": true, "OEMPTY": oe, "STAR": star,
+							"ONLYSTAR": pl+dl == 1 && star, "ONLYSTAR-PL": pl == 1 && star, "ONLYSTAR-DL": dl == 1 && star}
+						if !oe {
+							bools["PNIL"] = false // an origin lives in the prefix
+						}
+						at := &Atoms{Class: cls, Bool: bools, Int: map[string]int64{"LDEL": ldel, "PLEN": pl + dl, "PL": pl, "DL": dl}}
 						e := &PPA{Cond: at.Cond}
 						e.Run(itd)
 						c.Paths += len(e.Paths)
 						c.Scen++
 						want := 0
-						if ldel == 1 && oe && plen == 1 && star {
+						if ldel == 1 && oe && pl+dl == 1 && star {
 							want = 1
 						}
 						for i := range e.Paths {
@@ -371,7 +421,7 @@ func runC14(c *Ctx) {
 								continue
 							}
 							rows++
-							c.Check(p.RetB[0] == want, "C14.stream-end", fnName(itd), fmt.Sprintf("deletes=%d origin-empty=%v path-len=%d elem-is-star=%v", ldel, oe, plen, star), P.Pos(itd.Pos()), fmt.Sprintf("returns %d want %d", p.RetB[0], want))
+							c.Check(p.RetB[0] == want, "C14.stream-end", fnName(itd), fmt.Sprintf("deletes=%d origin-empty=%v prefix-len=%d path-len=%d elem-is-star=%v", ldel, oe, pl, dl, star), P.Pos(itd.Pos()), fmt.Sprintf("returns %d want %d", p.RetB[0], want))
 						}
 					}
 				}
